@@ -65,6 +65,9 @@ CLAIMED = {
  "C18": ("TLA+ admissible (unit, count) set, direction, template key path and placeholder substitution (FormatTokens.HumanCandidates / InWordsR over the exported locale tables); TLC trace validation of format_diff/diff_for_humans/in_words over all locales x units x plural classes x flags",
          "every recorded format_diff / diff_for_humans (explicit reference instants and a patched now) / in_words - all shipped locales x 7 units x counts covering every CLDR plural class (0..1000 exhaustively in the thorough tier) x {now, other} x {past, future} x {absolute}, the round-up thresholds, random instants - is judged by TLC: no exception, non-empty, no placeholder left, and the phrase is the locale's own template for an admissible (unit, count) in the right direction",
          "TLC; locale tables and CLDR plural categories are data tabulated from the working tree; harness projection. The count is constrained to the largest non-zero unit or its round-up (within one unit of the elapsed time), not to pendulum's particular thresholds", "7 C18"),
+ "C11": ("TLA+ definitions of the standard-library accessors (isoformat/str via IsoText, toordinal/weekday/isoweekday/isocalendar/timetuple/utctimetuple via Calendar, utcoffset/tzname via Zones) and ordering/subtraction by derived instants; TLC trace validation of every accessor and operator against the spec and against the native twin",
+         "every recorded accessor bundle of a DateTime / Date / Time - values on both sides of and inside every zone's transitions with both folds, naive, UTC, fixed offsets, random - is judged by TLC against the spec's definition of the accessor and, for every accessor (incl. strftime, ctime, dst, timestamp, timetz), by equality with the native twin (same fields, zoneinfo tzinfo of the same key, same fold), == and hash with the twin for unambiguous values, and the pendulum type of everything date/time/datetime-like a method returns; pairs (same tzinfo object, other zones, fixed offsets) for the six comparisons and subtraction: ordering of instants, agreement with the native pair",
+         "TLC, tz database as above, harness projection; ordering clauses are not applied to same-tzinfo pairs on ambiguous wall times, nor the twin clause of subtraction to same-zone pairs with different offsets (CPython compares / subtracts those by wall clock)", "7 C11"),
 }
 NOT_YET = "check not built yet in this round (planned: see DESIGN.md section 7)"
 
